@@ -378,6 +378,7 @@ def main():
     c.max_samples = 3
     rp = vlib.load_replay(sys.argv)
     if rp is not None:
+        c.sample({"replayed": {k: rp["witness"].get(k) for k in ("comp", "platform")}})
         vlib.fanout("checks.C04", [{"kind": "replay", "case": rp["witness"]}], c, timeout=120)
         sys.exit(c.finish())
 
